@@ -87,9 +87,13 @@ def cp2k_apply(roots, update, remove):
     info[target] = dict(created=bool, node=Sec, old_params=[...])."""
     roots = copy.deepcopy(roots)
     info = {}
+    # all addresses refer to the template as it was read
+    found = {t: _find(roots, t) for t in list(update or {}) + list(remove or [])}
     for target, val in (update or {}).items():
         data = val.get("data", {})
-        node, level, rest = _find(roots, target)
+        node, level, rest = found[target]
+        if node is None:       # may hang below a section created just before
+            node, level, rest = _find(roots, target)
         created = node is None
         if created:
             for j, title in enumerate(rest):
@@ -115,7 +119,7 @@ def cp2k_apply(roots, update, remove):
         if val.get("settings"):
             node.params = [str(s) for s in val["settings"]]
     for target in remove or []:
-        node, level, rest = _find(roots, target)
+        node, level, rest = found[target]
         if node is None:
             continue
         _drop(roots, node)
@@ -148,7 +152,9 @@ def cp2k_diff(exp, got, path=""):
             loose.append(e)
     for e in loose:
         m = [g for g in rest if g.title == e.title]
-        m.sort(key=lambda g: sorted(g.lines) != sorted(e.lines))
+        m.sort(key=lambda g: (sorted(g.lines) != sorted(e.lines))
+               + (sorted(k.canon() for k in g.kids)
+                  != sorted(k.canon() for k in e.kids)))
         if m:
             rest.remove(m[0])
             pairs.append((e, m[0]))
